@@ -724,8 +724,21 @@ func (vc *FuncVC) atCall(st *State, c ssa.CallInstruction) {
 	for _, ac := range vc.con.AtCall {
 		for _, k := range keys {
 			if k == ac.Callee || strings.HasSuffix(k, ac.Callee) {
-				env := st.specEnv(vc.pkg, vc.specVars(st))
-				vc.ghostAssign(st, env, []*GhostAssign{ac.GA})
+				vars := vc.specVars(st)
+				for i, a := range c.Common().Args {
+					vars[fmt.Sprintf("arg%d", i)] = SV{V: st.val(a), T: a.Type()}
+				}
+				env := st.specEnv(vc.pkg, vars)
+				if ac.Assert != nil {
+					if t, err := env.Bool(ac.Assert.E); err == nil {
+						st.oblige(fmt.Sprintf("at-call[%s].assert[%s]", shortTail(ac.Callee), ac.Assert.Label), t, ac.Assert.Src)
+						st.assume(t)
+					} else {
+						vc.errs = append(vc.errs, fmt.Sprintf("%s at-call assert: %v", vc.name, err))
+					}
+				} else {
+					vc.ghostAssign(st, env, []*GhostAssign{ac.GA})
+				}
 				break
 			}
 		}
